@@ -6,6 +6,7 @@ import (
 	"io"
 	"net"
 	"os"
+	"path/filepath"
 	"strings"
 	"sync"
 	"time"
@@ -110,6 +111,7 @@ type segRec struct {
 	got    map[string]int
 	long   bool
 	binary bool
+	ff0    bool // the first server-to-client data byte is 0xff
 }
 
 func (r *segRec) recv(dir string, b []byte, total int) {
@@ -132,6 +134,10 @@ func (r *segRec) recv(dir string, b []byte, total int) {
 
 		if r.binary {
 			want = posByteB(off+j, salt)
+		}
+
+		if r.ff0 && dir == "s2c" && off+j == 0 {
+			want = 0xff
 		}
 
 		if c != want {
@@ -167,7 +173,14 @@ type peer struct {
 	close    func()
 }
 
+// negoExtra: data the telnet peer sends in the same write as its opening negotiation (already escaped for the wire)
+var negoExtraMu sync.Mutex
+
 func startPeer(kind string, nego ...bool) (*peer, error) {
+	return startPeerX(kind, nil, nego...)
+}
+
+func startPeerX(kind string, extra []byte, nego ...bool) (*peer, error) {
 	p := &peer{sessions: make(chan io.ReadWriteCloser, 4)}
 
 	if kind == "telnet" {
@@ -192,7 +205,7 @@ func startPeer(kind string, nego ...bool) (*peer, error) {
 				mu.Unlock()
 
 				if len(nego) > 0 && nego[0] {
-					_, _ = c.Write(negoOpening)
+					_, _ = c.Write(append(append([]byte(nil), negoOpening...), extra...))
 					p.sessions <- &negoConn{Conn: c}
 
 					continue
@@ -229,7 +242,11 @@ func c16Transport(s *c16Scn, port int, keyPath string) (*transport.Transport, er
 		opts = append(opts, options.WithTimeoutSocket(120*time.Millisecond))
 	}
 
-	if s.Transport == "system" {
+	if s.Transport == "system" && s.ID%3 == 0 {
+		// the caller supplies the whole ssh argument list: the transport still has to ask for the NETCONF subsystem itself
+		opts = append(opts, options.WithSystemTransportOpenArgsOverride([]string{"127.0.0.1", "-p", fmt.Sprint(port), "-l", c14User,
+			"-o", "StrictHostKeyChecking=no", "-o", "UserKnownHostsFile=/dev/null", "-i", keyPath, "-F", "/dev/null", "-o", "LogLevel=ERROR"}))
+	} else if s.Transport == "system" {
 		opts = append(opts, options.WithSystemTransportOpenArgs([]string{"-o", "LogLevel=ERROR"}))
 	}
 
@@ -258,8 +275,19 @@ func c16Run(s *c16Scn, enc *json.Encoder, mu *sync.Mutex) verdict {
 
 	var drop, closeAll, stall func()
 
+	var sessionKinds func() []string
+
+	// a negotiating telnet peer sends its first two data bytes together with the negotiation: a data byte 0xff (escaped as
+	// IAC IAC on the wire) and the byte after it
+	ffFirst := s.Transport == "telnet" && s.Nego && !s.Binary && s.S2C >= 2 && !s.LongLine
+
 	if s.Transport == "telnet" {
-		p, err := startPeer("telnet", s.Nego && !s.Binary)
+		var extra []byte
+		if ffFirst {
+			extra = []byte{0xff, 0xff, posByte(1, s.LongLine, 0)}
+		}
+
+		p, err := startPeerX("telnet", extra, s.Nego && !s.Binary)
 		if err != nil {
 			fail(&v, "C16:harness:peer", "%v", err)
 
@@ -276,12 +304,25 @@ func c16Run(s *c16Scn, enc *json.Encoder, mu *sync.Mutex) verdict {
 		}
 
 		port, drop, closeAll, stall = srv.Port, srv.DropConns, srv.Close, srv.Stall
+		sessionKinds = func() []string {
+			srv.mu.Lock()
+			defer srv.mu.Unlock()
+
+			return append([]string(nil), srv.Sessions...)
+		}
 	}
 
 	defer closeAll()
 
 	s2c := posBytes(s.S2C, s.LongLine, 0)
 	c2s := posBytes(s.C2S, s.LongLine, 7)
+	s2cWire := s2c
+
+	if ffFirst {
+		s2c[0] = 0xff
+		rec.ff0 = true
+		s2cWire = s2c[2:] // the first two went out with the negotiation
+	}
 
 	if s.Binary {
 		for i := range s2c {
@@ -320,7 +361,10 @@ func c16Run(s *c16Scn, enc *json.Encoder, mu *sync.Mutex) verdict {
 		select {
 		case far := <-sessions:
 			if s.Early {
-				go func() { defer close(s2cDone); chunked(s2c, func(b []byte) error { _, e := far.Write(b); return e }) }()
+				go func() {
+					defer close(s2cDone)
+					chunked(s2cWire, func(b []byte) error { _, e := far.Write(b); return e })
+				}()
 			}
 
 			farCh <- far
@@ -348,6 +392,20 @@ func c16Run(s *c16Scn, enc *json.Encoder, mu *sync.Mutex) verdict {
 		return v
 	}
 
+	if sessionKinds != nil {
+		want := "shell"
+		if s.Mode == "netconf" {
+			want = "subsystem:netconf"
+		}
+
+		if k := sessionKinds(); len(k) == 0 || k[len(k)-1] != want {
+			fail(&v, "C16:"+s.Transport+":"+s.Mode+":wrong-session-kind", "%s: the server was asked for %v, the mode needs %q", name, k, want)
+			_ = t.Close(true)
+
+			return v
+		}
+	}
+
 	rec.add(map[string]interface{}{"ev": "sent", "dir": "s2c", "total": len(s2c)})
 	rec.add(map[string]interface{}{"ev": "sent", "dir": "c2s", "total": len(c2s)})
 
@@ -366,7 +424,7 @@ func c16Run(s *c16Scn, enc *json.Encoder, mu *sync.Mutex) verdict {
 			return
 		}
 
-		chunked(s2c, func(b []byte) error { _, e := far.Write(b); return e })
+		chunked(s2cWire, func(b []byte) error { _, e := far.Write(b); return e })
 	}()
 	go func() { defer wg.Done(); chunked(c2s, t.Write) }()
 	go func() { // far end receives what the client wrote
@@ -460,6 +518,8 @@ func c16Run(s *c16Scn, enc *json.Encoder, mu *sync.Mutex) verdict {
 	case <-time.After(3 * time.Second):
 	}
 
+	// a block of its own: it is judged also when the byte stream part of this session has already been rejected
+	rec.add(map[string]interface{}{"ev": "reset", "t": s.ID, "transport": s.Transport, "mode": s.Mode, "name": name + "/unblock"})
 	rec.add(map[string]interface{}{"ev": "unblock", "cause": cause, "returned": returned})
 
 	if cause == "peergone" {
@@ -696,6 +756,12 @@ func c16(args []string) error {
 
 	parallel(len(scns), 8, func(i int) {
 		s := scns[i]
+		if strings.HasPrefix(s.Mode, "standin-") {
+			emit(c16Standin(s))
+
+			return
+		}
+
 		if strings.HasPrefix(s.Mode, "e2e-") {
 			emit(c16E2E(s.ID, s.Transport, strings.TrimPrefix(s.Mode, "e2e-"), s.LongLine, enc, mu))
 
@@ -706,4 +772,68 @@ func c16(args []string) error {
 	})
 
 	return nil
+}
+
+// c16Standin: the system transport driving a stand-in program that ignores hang-ups and keeps its terminal open (what an ssh
+// client does whose connection is stuck): a Read parked when the transport is closed must still return - Close has to end the
+// child, closing the terminal alone is not enough.
+func c16Standin(s *c16Scn) verdict {
+	mode := strings.TrimPrefix(s.Mode, "standin-")
+	v := verdict{ID: s.ID, Variant: "system/" + s.Mode, OK: true, Nontrivial: true}
+
+	dir, _ := os.MkdirTemp(os.Getenv("VERIF_TMP"), "c16s-")
+	defer os.RemoveAll(dir)
+
+	bin := filepath.Join(dir, "standin.sh")
+	_ = os.WriteFile(bin, []byte("#!/bin/sh\ntrap '' HUP TERM INT\nstty raw -echo 2>/dev/null\necho ready\nexec cat\n"), 0o700)
+
+	li, _ := logging.NewInstance()
+	opts := []util.Option{options.WithSystemTransportOpenBin(bin), options.WithAuthNoStrictKey(), options.WithTransportReadSize(64)}
+
+	if mode == "netconf" {
+		opts = append(opts, netconfConn)
+	}
+
+	t, err := transport.NewTransport(li, "127.0.0.1", "system", opts...)
+	if err == nil {
+		err = t.Open()
+	}
+
+	if err != nil {
+		v.Skipped = fmt.Sprintf("stand-in could not be started: %v", err)
+
+		return v
+	}
+
+	// read what the stand-in says, then park a read
+	parked := make(chan struct{})
+
+	go func() {
+		defer close(parked)
+
+		for {
+			if _, rerr := t.Read(); rerr != nil {
+				return
+			}
+		}
+	}()
+
+	time.Sleep(150 * time.Millisecond)
+
+	fin, pan := withWatchdog(5*time.Second, func() { _ = t.Close(true) })
+
+	switch {
+	case !fin:
+		fail(&v, "C16:system:"+mode+":close-hangs:stand-in", "Close(force) did not return with a child that ignores hang-ups")
+	case pan != nil:
+		fail(&v, "C16:system:"+mode+":close-panics:stand-in", "%v", pan)
+	default:
+		select {
+		case <-parked:
+		case <-time.After(3 * time.Second):
+			fail(&v, "C16:system:"+mode+":blocked-read-not-released:child-ignores-hangup", "3 s after Close(force) the parked Read has not returned (the child was not ended)")
+		}
+	}
+
+	return v
 }
